@@ -347,3 +347,64 @@ func ZZH_C18_seqno_reset() {
 		zz.Assert("C18.reset.next-batch-follows-the-reset-value", b.Height == to+j)
 	}
 }
+
+// ZZH_C18_seq_after_idle_attempts: batch sequence numbers increase by one between explicit resets also
+// when attempts to cut a batch find nothing to batch. Two accounts; account B's first transaction is
+// batched and in flight; then four free operations among: account A's next nonce arrives, the
+// lowest transaction of A that this pool holds is committed by a block produced elsewhere, the
+// batch timer fires (GenerateBlock whether or not the pool reports pending work - the orderer asks
+// first, so both are driven), the oldest outstanding batch is reported committed. Finally one
+// more ready transaction of A arrives and a batch is cut: every batch carries the previous height
+// plus one.
+func ZZH_C18_seq_after_idle_attempts() {
+	zz.ConcreteClock(1000)
+	batchSize := uint64(1 + zz.Choice("batchSize", 2))
+	m := &zzPoolModel{committed: append([]uint64{}, zzBase...), nextBatch: append([]uint64{}, zzBase...), lastHeight: 1}
+	mp := zzNewPool(batchSize, m)
+	nextHash := 0
+	submit := func(ai int, nonce uint64) {
+		h := zzHashes[nextHash]
+		nextHash++
+		tx := &pb.BxhTransaction{From: zzAccts[ai], To: zzAccts[1-ai], Nonce: nonce, Timestamp: 1, TransactionHash: types.NewHashByStr(h)}
+		m.subs = append(m.subs, &zzSubmitted{acct: ai, nonce: nonce, hash: h, tx: tx, admitted: true})
+		zzCheckBatch(m, mp.ProcessTransactions([]pb.Transaction{tx}, false, true), batchSize)
+	}
+	submit(1, zzBase[1])
+	zzCheckBatch(m, mp.GenerateBlock(), batchSize)
+	zz.Assert("C18.idle.first-batch", len(m.batches) == 1)
+	nextA := zzBase[0] // next nonce of account A to arrive
+	for step := 0; step < 4; step++ {
+		switch zz.Choice("op", 4) {
+		case 0:
+			if nextHash < len(zzHashes)-1 {
+				submit(0, nextA)
+				nextA++
+			}
+		case 1: // a block produced elsewhere commits A's lowest transaction held here
+			if m.committed[0] < nextA {
+				for _, s := range m.subs {
+					if s.acct == 0 && s.nonce == m.committed[0] {
+						mp.CommitTransactions(&ChainState{Height: m.lastHeight, TxHashList: []*types.Hash{types.NewHashByStr(s.hash)}})
+						break
+					}
+				}
+				m.committed[0]++
+				if m.nextBatch[0] < m.committed[0] {
+					m.nextBatch[0] = m.committed[0]
+				}
+			}
+		case 2:
+			if zz.Choice("askFirst", 2) == 0 || mp.HasPendingRequest() {
+				zzCheckBatch(m, mp.GenerateBlock(), batchSize)
+			}
+		case 3:
+			zzCommitOldest(mp, m)
+		}
+	}
+	submit(0, nextA)
+	nextA++
+	for round := 0; round < 4; round++ {
+		zzCheckBatch(m, mp.GenerateBlock(), batchSize)
+	}
+	zz.Assert("C18.idle.everything-of-A-batched", m.nextBatch[0] == nextA)
+}
